@@ -58,6 +58,13 @@ def gen_probe_project(rng, binp, tries=40, opts=None):
                     if r == 0:
                         continue
                     tree["o"].append([k, None if r == 1 else v])
+        if o.get("overlap_keys", True):
+            # overlapping branches: an exact value declared after a branch whose bounds contain it (the first match wins, in every flavour)
+            for (ns, l), tree in p["files"].items():
+                tree["o"].append(["ovf64", proj.A(["f64", proj.A([f"[{l}] {{{{ count }}}}% left", "0.0..=100.0"]), proj.A([f"[{l}] empty", "0.0"]),
+                                                   proj.A([f"[{l}] full", proj.F("100.0")]), proj.A([f"[{l}] out of range"])])])
+                tree["o"].append(["ovf32", proj.A(["f32", proj.A([f"[{l}] low", "..2.5"]), proj.A([f"[{l}] one", "1.0", "2.5"]), proj.A([f"[{l}] rest {{{{ count }}}}"])])])
+                tree["o"].append(["ovi32", proj.A(["i32", proj.A([f"[{l}] few", "0..10"]), proj.A([f"[{l}] five", proj.U(5), proj.U(10)]), proj.A([f"[{l}] rest"])])])
         if o.get("ordinal_key", True):
             # an ordinal and a cardinal plural with every form, in every locale (string and view back-ends must use the key's rule type)
             for (ns, l), tree in p["files"].items():
@@ -141,18 +148,21 @@ def boundary_counts(v, count_key, ty):
             walk(x["inner"])
     walk(v)
     out = []
+    uniq = []
     for b in bounds:
-        q = Fraction(b)
-        if ty in ("f32", "f64"):
-            for d in (0, Fraction(1, 2), -Fraction(1, 2)):
+        if Fraction(b) not in uniq:
+            uniq.append(Fraction(b))
+    for deltas in ((0,), (Fraction(1, 2), -Fraction(1, 2)) if ty in ("f32", "f64") else (1, -1)):
+        for q in uniq:
+            for d in deltas:
                 w = q + d
-                if w.denominator in (1, 2, 4, 8) and abs(w) < 10 ** 6:
-                    out.append(("%s%s" % (float(w), ty)).replace("-0.0f", "0.0f"))
-        elif q.denominator == 1:
-            lo, hi = TYPE_LIMITS[ty]
-            for w in (int(q) - 1, int(q), int(q) + 1):
-                if lo <= w <= hi:
-                    out.append("%d%s" % (w, ty))
+                if ty in ("f32", "f64"):
+                    if w.denominator in (1, 2, 4, 8) and abs(w) < 10 ** 6:
+                        out.append(("%s%s" % (float(w), ty)).replace("-0.0f", "0.0f"))
+                elif w.denominator == 1:
+                    lo, hi = TYPE_LIMITS[ty]
+                    if lo <= w <= hi:
+                        out.append("%d%s" % (int(w), ty))
     return out
 
 
@@ -214,11 +224,12 @@ def build_probes(rng, p, res, oracle, per_key=3, flavours=("string", "display", 
                             short = name[len("var_"):]
                             if info["count"] is not None:
                                 lit = rng.pick(COUNTS[info["count"]])
-                                if info["count"] != "plural" and rng.chance(1, 2):
-                                    # a count on / next to a bound of one of the key's range branches (in the locale rendered)
+                                if info["count"] != "plural" and rng.chance(3, 4):
+                                    # a count on / next to a bound of one of the key's range branches (in the locale rendered); the
+                                    # list is walked across the locales and argument assignments so that the bounds themselves come first
                                     bl = boundary_counts(v, name, info["count"])
                                     if bl:
-                                        lit = rng.pick(bl)
+                                        lit = bl[(a + cfg["locales"].index(l) * per_key) % len(bl)] if rng.chance(2, 3) else rng.pick(bl)
                                 count_of[name] = lit
                                 var_vals[name] = count_display(lit)
                                 args_rs.append((rust_ident(short), lit, True))
@@ -400,7 +411,13 @@ def run_render_probe(ctx, rng, n_crates=1, flavours=("string", "display", "view"
         p, q, res = gen_probe_project(rng, binp, opts=opts)
         probes = build_probes(rng, p, res, res["oracle"], per_key=per_key, flavours=flavours)
         if len(probes) > 900:
-            probes = probes[:900]
+            # keep whole groups (all flavours of one key x locale x arguments), chosen at random over the whole project
+            groups_all = sorted({pr["group"] for pr in probes}, key=str)
+            per_group = max(1, len(probes) // len(groups_all))
+            keep = set(map(str, rng.sample(groups_all, min(len(groups_all), max(1, 900 // per_group)))))
+            probes = [pr for pr in probes if str(pr["group"]) in keep]
+            for k, pr in enumerate(probes):
+                pr["id"] = k
         dirp = os.path.join(WORK, f"probe_{ctx.pid}_{c}")
         write_crate(dirp, q, probes)
         rc, out, err = run_crate(ctx, dirp)
